@@ -61,12 +61,23 @@ def families(tier, seed):
     if tier == 'thorough':
         counts += [(3, 1), (1, 3), (3, 2), (2, 3), (3, 3)]
     for sh in shs:
-        cs = _counts_for(sh, counts)
+        cnts = _counts_for(sh, counts)
         for moore, plus_one in shapes.MODES:
-            for nh in sorted({c[0] for c in cs}):
+            for nh in sorted({c[0] for c in cnts}):
                 out.append(_mk('_attractor_under_assumptions', sh, moore, plus_one, nh, 1))
-            for nh, ng in cs:
+            for nh, ng in cnts:
                 out.append(_mk('solve_streett_game', sh, moore, plus_one, nh, ng))
+    # BOUNDED: the same contract harnesses on the real dd managers (both back ends),
+    # postconditions evaluated against the explicit-state reference semantics
+    ns = 4 if tier == 'quick' else 40
+    for be in (None, 'autoref'):
+        for sh in (shapes.QUICK[2], shapes.QUICK[1]):
+            for moore, plus_one in shapes.MODES:
+                for fname, nh, ng in (('solve_streett_game', 2, 2), ('_attractor_under_assumptions', 2, 1)):
+                    params = dict(moore=moore, plus_one=plus_one, n_holds=nh, n_goals=ng)
+                    out.append(dict(
+                        name=f'real manager sweep [{be or "default"}] {fname} holds={nh} goals={ng} {shapes.mode_name(moore, plus_one)} {sh.name}',
+                        run=harness.sweep(cs.FUNCTIONS[fname], sh, params, 'automaton', seed, ns, be), label='bounded'))
     return out
 
 
@@ -74,4 +85,5 @@ def coverage_extra(results):
     return dict(bounded_parameters=dict(
         declaration_shape='finite family (ovc/shapes.py); actions and liveness predicates symbolic',
         n_liveness='(#holds,#goals) in {1,2}^2 quick, {1,2,3}^2 thorough (shapes with 4 state bits: product <= 4; 5 bits: product <= 2)',
-        modes='all 4: complete'))
+        modes='all 4: complete',
+        real_manager_sweeps='4 (quick) / 40 (thorough) random games per mode, shape and back end (dd.cudd, dd.autoref), explicit-state reference'))
